@@ -632,7 +632,7 @@ func runHistory(c *core.Ctx, idx int, nn bool) {
 	h := &hist{c: c, r: r, min: pp[0], max: pp[1], float: r.Chance(0.3), hash: core.NewHasher(), nn: nn}
 	h.scale, h.sy = 1, 1
 	if r.Chance(0.12) {
-		h.far = math.Pow(10, r.Range(6, 13))
+		h.far = math.Pow(10, r.Range(6, 19)) // (beyond 2^53 the sum of a box side at the outlier and an ordinary one absorbs the ordinary one)
 		c.Count("hist.with_far_outliers")
 	} else if r.Chance(0.12) || nn && r.Chance(0.25) {
 		// the same grids at the ends of the float64 range (exact: a power of two): products of two
